@@ -177,6 +177,7 @@ def run_check(spec, tier, seed, replay=None):
     samples = []
     traces_validated = 0
     unmodelled = 0
+    storeok = dict(images=0, indexed=0, ok=0)
     hist = {}
     outcomes = {}
     diffs_all = []
@@ -245,6 +246,12 @@ def run_check(spec, tier, seed, replay=None):
                         violations.append(dict(kind="build", nofail=True, text=f"model driver {st.driver} failed: {r['driver_err'][-300:]}"))
                     else:
                         unmodelled += sum(1 for l in r["model_lines"] if l.startswith("# unmodelled"))
+                        for l in r["model_lines"]:
+                            if l.startswith("# storeok "):
+                                for kv in l.split()[2:]:
+                                    k, _, v = kv.partition("=")
+                                    if k in storeok and v.isdigit():
+                                        storeok[k] += int(v)
                         diffs, gs, ms = brv.diff_streams(r["go_lines"], r["model_lines"])
                         traces_validated += len(gs) - len(diffs)
                         for d in diffs:
@@ -312,7 +319,7 @@ def run_check(spec, tier, seed, replay=None):
         leanchecker=leanchecker,
         evaluations=max(evaluations, 0), distinct_nontrivial=len(distinct), rule=spec.rule,
         traces_validated_against_impl=traces_validated, samples=samples or ["<no scripts run>"],
-        op_histogram=hist, outcome_histogram=dict(sorted(outcomes.items())), scripts_partly_unmodelled=unmodelled, facts_changed=changed, modelled_functions_changed=fp_changed,
+        op_histogram=hist, outcome_histogram=dict(sorted(outcomes.items())), scripts_partly_unmodelled=unmodelled, load_hypothesis_StoreOK=storeok, facts_changed=changed, modelled_functions_changed=fp_changed,
         known_findings_replayed=len(known_printed), broken_obligations=broken[:10], notes=notes,
         partial=spec.partial_note,
     )
